@@ -37,6 +37,7 @@ type lgVar struct {
 type lgCase struct {
 	ID   int      `json:"id"`
 	Src  string   `json:"src"`
+	Pre  string   `json:"pre"` // functions the module declares, written before the route
 	Vars []lgVar  `json:"vars"`
 	Tags []string `json:"tags"`
 	Kind string   `json:"kind"` // expected kind, only to decide which programs may run without a step limit
@@ -119,6 +120,7 @@ func lgFromVM(v vm.Value) interface{} {
 
 func lgModule(cs lgCase) string {
 	var b strings.Builder
+	b.WriteString(cs.Pre)
 	b.WriteString("@ POST /run {\n")
 	for _, v := range cs.Vars {
 		t := map[string]string{"int": "int", "str": "str", "bool": "bool", "float": "float"}[v.V["k"].(string)]
